@@ -525,7 +525,7 @@ def sk_cumsum(tier):
 
 @unit(
     "arrays.cumsum",
-    props=["C07", "C13"],
+    props=["C07", "C13", "C04"],
     targets=["flodym.flodym_arrays.FlodymArray.cumsum", "flodym.flodym_arrays.FlodymArray.apply"],
     skeletons=sk_cumsum,
 )
